@@ -68,18 +68,23 @@ def run_c10(ctx, chk):
     body = prog.bodies.get(disp)
     sr = ctx.screen_run()
     ranges = []
-    for f in [disp] + prog.closures_of.get(disp, []):
+    disp_scope = sorted(closures_of(ctx, {disp}))      # display, its closures and private helpers (e.g. a row renderer)
+    for f in disp_scope:
         b = prog.bodies[f]
         for h in b.loops()[0]:
             ht = b.blocks[h]['term']
             if ht['k'] == 'call' and ((ht['func'].get('fn') or {}).get('path', '')).endswith('::next'):
-                ranges.append((f, loop_range(ctx, sr['engine'], f, h), ht['args'][0]['place']['ty']))
+                rng = loop_range(ctx, sr['engine'], f, h)
+                sem = semantic_loop_range(sr, disp, f, h)
+                if sem is not None:
+                    rng = sem
+                ranges.append((f, rng, ht['args'][0]['place']['ty']))
     # the same iteration written with iterator adaptors: `(0..lines).map(render).collect()`
     coll_rows = []
     for r_ in sr['results'].get(disp, []):
         for (st, ret) in r_.finals:
             for ev in st.event_list():
-                if ev[0] == 'iter.collect' and ev[-1] in [disp] + prog.closures_of.get(disp, []):
+                if ev[0] == 'iter.collect' and ev[-1] in disp_scope:
                     _k, lo, hi, incl = ev[1]
                     lines = get(sr['engine'], st, 'lines')
                     zero = isinstance(lo, NumV) and lo.sym is None and lo.k == 0
@@ -109,9 +114,7 @@ def run_c10(ctx, chk):
     # D4: reader and writer agree on how many columns a cell takes: draw() measures
     # UnicodeWidthChar::width of the character it stores first in the cell; display() must decide
     # "the next cell is a placeholder" by the same measure of the first character of the cell text
-    scope = [disp] + prog.closures_of.get(disp, [])
-    for c_ in list(scope):
-        scope += [x for x in prog.closures_of.get(c_, []) if x not in scope]
+    scope = list(disp_scope)
     other = []
     for f_ in scope:
         for bi_, t_ in prog.calls(prog.bodies[f_]):
@@ -131,6 +134,34 @@ def run_c10(ctx, chk):
                  what='display() decides the placeholder skip by a different width measure than draw(): %s' % (
                      '; '.join(other + sorted(set(notfirst))[:2]) or 'no width measurement found'))
     chk.trust('may-write analysis E3 (mtsa/effects.py)', 'collection summaries')
+
+
+def semantic_loop_range(sr, epn, func, head):
+    """('0', 'lines') / ('0', 'columns') when the loop (func, head), as entered during the analysis of
+    entry point epn, iterates 0..lines / 0..columns of the screen in ascending order (decided on the
+    recorded range values, whatever expression produced them); None if it was never entered or is
+    something else"""
+    eng = sr['engine']
+    seen = None
+    states = [sg['st'] for sg in sr['segments'] if sg['ep'] == epn] + [st for r_ in sr['results'].get(epn, []) for (st, _r) in r_.finals]
+    for st in states:
+        for ev in st.event_list():
+            if ev[0] != 'loop-head' or ev[1] != func or ev[2] != head or len(ev) < 5 or ev[4] is None:
+                continue
+            d = ev[4]
+            if d[4] or d[3] or not (isinstance(d[1], NumV) and isinstance(d[2], NumV)):
+                return None
+            if not (d[1].sym is None and d[1].k == 0):
+                return None
+            kind = None
+            for nm in ('lines', 'columns'):
+                v = get(eng, st, nm)
+                if isinstance(v, NumV) and eng.prove_cmp(st, 'eq', d[2], v) is True:
+                    kind = nm
+            if kind is None or (seen is not None and seen != kind):
+                return None
+            seen = kind
+    return ('0', seen) if seen else None
 
 
 def closure_carried(prog, c, depth=0):
